@@ -87,8 +87,8 @@ impl<'a> PrettyPrinter<'a> {
             && import_items_nodes.iter().all(|node| !is_comment_node(node))
             && check_import_name_duplication(&import_items_nodes)
         {
-            // Sort import items by their text representation.
-            import_items_nodes.sort_by_key(|&node| node.clone().into_text());
+            // Sort import items by their text representation, ignoring the blanks inside them.
+            import_items_nodes.sort_by_key(|&node| import_item_sort_key(node));
         }
         // Note that `ImportItem` does not implement `AstNode`.
         ListStylist::new(self)
@@ -143,6 +143,27 @@ impl<'a> PrettyPrinter<'a> {
             }
         })
     }
+}
+
+/// The text of an import item as it is printed (`a.b`, `a as b`): irregular inner blanks must
+/// not influence the order, or formatting the result again would reorder the items once more.
+fn import_item_sort_key(node: &SyntaxNode) -> String {
+    fn collect(node: &SyntaxNode, key: &mut String) {
+        if node.children().len() == 0 {
+            match node.kind() {
+                SyntaxKind::Space => {}
+                SyntaxKind::As => key.push_str(" as "),
+                _ => key.push_str(node.text()),
+            }
+        } else {
+            for child in node.children() {
+                collect(child, key);
+            }
+        }
+    }
+    let mut key = String::new();
+    collect(node, &mut key);
+    key
 }
 
 /// Check for duplicate import names in the given import items nodes.
